@@ -10,6 +10,8 @@
 (*   ins i b    one byte inserted before position i                           *)
 (*   del i      byte i removed                                                *)
 (*   ext k      1..3 bytes appended                                           *)
+(*   zero i n   bytes i..i+n-1 zeroed, n = 24 (NUL padding inside       *)
+(*              counted / fixed-width text), and the tail from i zeroed       *)
 (* A decoder outcome is a function of the bytes alone: Outcome \in {Err} \cup *)
 (* Val; the four ways an implementation can fail to be that function (panic,  *)
 (* no termination, dependence on memory beyond the slice, dependence on the   *)
@@ -30,6 +32,8 @@ Mutants(s) ==
     \cup {[k |-> "ins", b |-> Sub(s, 1, p - 1) \o <<v>> \o Sub(s, p, Len(s))] : p \in 1..(Len(s) + 1), v \in {0, 255}}
     \cup {[k |-> "del", b |-> Sub(s, 1, p - 1) \o Sub(s, p + 1, Len(s))] : p \in 1..Len(s)}
     \cup {[k |-> "ext", b |-> s \o [j \in 1..n |-> 255]] : n \in 1..3}
+    \cup UNION {{[k |-> "zero", b |-> [j \in 1..Len(s) |-> IF j >= p /\ j < p + n THEN 0 ELSE s[j]]] :
+                     p \in {q \in 1..Len(s) : n = 24 \/ q % 4 = 1}} : n \in {24, Len(s)}}
 Next == kind = "seed" /\ \E m \in Mutants(body) : body' = m.b /\ kind' = m.k /\ UNCHANGED i
 
 Emit == CSVWrite("%1$s", <<ToJson([t |-> Seeds[i].t, ver |-> Seeds[i].ver, dialect |-> Seeds[i].dialect,
